@@ -459,8 +459,14 @@ func init() {
 			iv := a[0].R.(*IfaceV)
 			switch iv.V.K {
 			case KStr:
+				if cs, ok := iv.V.ConcStr(); ok && plausibleCidText(cs) {
+					return declined()
+				}
 				return in.cidFromText(iv.V), true
 			case KSlice:
+				if bs, ok := concByteCells(iv.V); ok && plausibleCidBytes(bs) {
+					return declined()
+				}
 				return in.cidFromBytes(iv.V), true
 			case KStruct:
 				return tuple(iv.V, nilErr), true
